@@ -2419,6 +2419,37 @@ static const struct echs_evstrm_class_s evrrul_cls = {
 	.seria = send_evrrul,
 };
 
+static void
+pin_proto_parts(struct rrulsp_s *restrict rr, echs_instant_t from)
+{
+/* The fillers take a missing BYMONTH/BYMONTHDAY from the proto instant.
+ * After the first cache load the proto is the occurrence kept back for
+ * the refill, and with a SHIFT that is a shifted date, so spell out
+ * what DTSTART contributes before any shifting takes place. */
+	if (LIKELY(!rr->shift) || rr->scale != SCALE_GREGORIAN) {
+		return;
+	} else if (bi63_has_bits_p(rr->wk) ||
+		   bi447_has_bits_p(&rr->dow) ||
+		   bi383_has_bits_p(&rr->doy) ||
+		   bi383_has_bits_p(&rr->easter) ||
+		   bi31_has_bits_p(rr->dom)) {
+		return;
+	}
+	switch (rr->freq) {
+	case FREQ_YEARLY:
+		if (!bui31_has_bits_p(rr->mon)) {
+			rr->mon = ass_bui31(rr->mon, from.m);
+		}
+		/*@fallthrough@*/
+	case FREQ_MONTHLY:
+		rr->dom = ass_bi31(rr->dom, from.d);
+		break;
+	default:
+		break;
+	}
+	return;
+}
+
 static echs_evstrm_t
 __make_evrrul(echs_event_t e, rrulsp_t rr, size_t nr)
 {
@@ -2445,6 +2476,7 @@ __make_evrrul(echs_event_t e, rrulsp_t rr, size_t nr)
 
 	/* bang the first one */
 	this->rrul = rr[0U];
+	pin_proto_parts(&this->rrul, e.from);
 	this->seq = 0U;
 	this->ref = nr;
 	that[0U] = this;
@@ -2452,6 +2484,7 @@ __make_evrrul(echs_event_t e, rrulsp_t rr, size_t nr)
 	for (size_t i = 1U; i < nr; i++) {
 		this[i] = this[0U];
 		this[i].rrul = rr[i];
+		pin_proto_parts(&this[i].rrul, e.from);
 		this[i].seq = i;
 		that[i] = this + i;
 	}
